@@ -122,8 +122,11 @@ class DB:
         self.impls = []
         self.statics = {}
         self.consts = {}
+        DB.current = self
         self.fnsigs = {}
         self.crates = []
+        from .rename import reconcile
+        self.renamed = reconcile(crates)            # {key in the analysed tree: key in the pinned tree} for renamed functions
         for c in crates:
             pkg = c["pkg"]
             self.crates.append({"pkg": pkg, "crate": c["crate"], "types": c["crate_types"],
@@ -535,6 +538,47 @@ def local_name(n):
     if isinstance(n, dict) and n.get("k") == "Path" and n.get("res") == "local":
         return n["name"]
     return None
+
+
+def param_roles(f, spec):
+    """role -> local id of the parameter of f whose type matches, independent of the parameter's NAME.  spec: {role: type test},
+    a type test being a string (equality after dropping lifetimes / whitespace), or a callable(ty).  With several candidates the
+    first unclaimed one in declaration order is taken; a role without candidate is absent from the result."""
+    import re as _re
+    norm = lambda t: _re.sub(r"'[a-z_]+ ?", "", (t or "").replace(" ", ""))
+    out, used = {}, set()
+    for role, test in spec.items():
+        for p_ in (f.info.get("params") or []):
+            if not isinstance(p_, dict) or p_.get("lid") in used:
+                continue
+            ty = p_.get("ty") or ""
+            hit = test(ty) if callable(test) else norm(ty) == norm(test)
+            if hit:
+                out[role] = p_.get("lid")
+                used.add(p_.get("lid"))
+                break
+    return out
+
+
+def is_local(e, lid):
+    """e is (a reference to / dereference of / let-alias of) the local with id lid"""
+    seen = 0
+    e = peel(e)
+    while isinstance(e, dict) and seen < 8:
+        if e.get("k") == "Path" and e.get("res") == "local":
+            if e.get("lid") == lid:
+                return True
+            if "let_init" in e:
+                e = peel(e["let_init"])
+                seen += 1
+                continue
+            return False
+        if e.get("k") in ("AddrOf", "Deref", "Unary") and "e" in e:
+            e = peel(e["e"])
+        else:
+            return False
+        seen += 1
+    return False
 
 
 def lit_int(n):
